@@ -951,7 +951,10 @@ fn oracle(case: &Case, o: &Outcome) -> Option<(String, String)> {
         // the connection may legitimately end before the head is read: peer EOF in the script, or an
         // earlier response that announced `connection: close` (unread request payload)
         let has_eof = case.steps.iter().any(|st| matches!(st, Step::Eof));
-        let closed_by_response = o.close_seen && !o.statuses.contains(&431);
+        // … or the bytes were never a head to the decoder: after an unterminated chunked body they
+        // are (malformed) chunk framing and the connection is refused with 400 instead
+        let refused_otherwise = o.statuses.iter().any(|c| *c == 400 || *c == 500);
+        let closed_by_response = (o.close_seen && !o.statuses.contains(&431)) || refused_otherwise;
         if is_junk_or_big && all_before_done && offered_enough && s.wbudget >= INF && o.parsed_all && !has_eof && !closed_by_response {
             let prev_closed = o.statuses.len() < k; // connection was closed before reaching it
             if !prev_closed {
